@@ -233,7 +233,9 @@ func (lc *lockClient) do(q creq, isDirTarget bool) obs {
 	case opReadFile:
 		if fixed(4) {
 			n := int32(binary.BigEndian.Uint32(o.data))
-			if n < 0 || uint64(n) > q.a {
+			if n == -1 {
+				// the failure code: nothing follows
+			} else if n < 0 || uint64(n) > q.a {
 				o.note = "!BADLEN"
 			} else {
 				fixed(int(n))
